@@ -2,7 +2,7 @@ CONSTANTS
   N = 2
   T = 2
   MaxReq = 3
-  MaxTime = 9
+  MaxTime = 8
   Bodies <- McBodies
   Strangers = {0}
   EraseFirst = TRUE
